@@ -435,7 +435,20 @@ TrFmtParse == IsOp("fmt_parse") /\ KeepAll /\
              /\ E.s = X!Render(pf.items, X!UTC, e.v, B!Zero))
             => (ok /\ EV(E.res) = e)
 
+(* "the ISO 8601 formatter output equals the default display" *)
+TrIsoVsDisplay == IsOp("iso_vs_display") /\ KeepAll /\ Has(E.iso, "v") /\ Has(E.disp, "v")
+      /\ E.disp.v = X!Display(e.ts, e.v) /\ E.iso.v = E.disp.v
+(* F25: for whole seconds the ISO8601 constant (which is the format string it documents: %f is not *)
+(* optional) prints ".000000000" and Display prints no fraction.  The two clauses of C19 cannot    *)
+(* both hold there; neither side can be changed without breaking the other clause or the tests.    *)
+Dev_F25 == /\ Open("F25") /\ IsOp("iso_vs_display") /\ KeepAll /\ Has(E.iso, "v") /\ Has(E.disp, "v")
+           /\ X!Fields(e.ts, e.v)[7] = 0
+           /\ E.disp.v = X!Display(e.ts, e.v)
+           /\ E.iso.v = X!DateTimeText(X!Fields(e.ts, e.v), TRUE) \o <<32>> \o X!ScaleName(e.ts)
+           /\ Known("F25")
+
 TextNext1 ==
+  \/ TrIsoVsDisplay \/ Dev_F25
   \/ TrFmtEpoch \/ TrAccessors \/ TrEpochHms \/ TrParseEpoch \/ TrFmtDur \/ TrParseDur \/ TrSubdivision
   \/ TrTotality \/ TrParseScale \/ TrFmtFromStr \/ TrRender \/ TrConstEq \/ TrRenderConst \/ TrFmtParse
 TextNext == UNCHANGED sw /\ TextNext1
